@@ -226,6 +226,37 @@ func (s *Scope) Eval(e Expr) Term {
 		c.locals[e.Name] = v
 		return c.Eval(e.Body)
 	case EQuant:
+		if x.unroll > 0 {
+			// counterexample-search mode: integer quantifiers are expanded over the index window of the bounded sequences
+			allInt := true
+			for _, p := range e.Vars {
+				switch p.Type {
+				case "int", "byte", "uint8", "rune", "int64", "int32", "uint32", "mathint":
+				default:
+					allInt = false
+				}
+			}
+			if allInt && len(e.Vars) <= 2 {
+				var parts []Term
+				var rec func(i int, c *Scope)
+				rec = func(i int, c *Scope) {
+					if i == len(e.Vars) {
+						parts = append(parts, c.EvalBool(e.Body))
+						return
+					}
+					for k := -1; k <= searchMaxLen+1; k++ {
+						n := c.child()
+						n.locals[e.Vars[i].Name] = IntLit(int64(k))
+						rec(i+1, n)
+					}
+				}
+				rec(0, s)
+				if e.Forall {
+					return And(parts...)
+				}
+				return Or(parts...)
+			}
+		}
 		c := s.child()
 		var decls []string
 		var guards []Term
@@ -715,7 +746,7 @@ func (x *Exec) defineSpec(sf *SpecFunc) string {
 	ret := x.resolveTypeName(sf.Ret, sf.Pkg)
 	x.noFacts++
 	defer func() { x.noFacts-- }()
-	if sf.Opaque {
+	if sf.Opaque && x.unroll == 0 {
 		x.W.defSeen[name] = true
 		var sorts, names []string
 		for _, f := range formals {
@@ -925,7 +956,7 @@ func checkPrefixShape(sf *SpecFunc) string {
 // prefixFacts: for every prefix spec function over sequences of this sort, f(new, n) == f(old, n) where new agrees
 // with old on the first n elements (append at n, store at index n).
 func (x *Exec) prefixFacts(newSeq, oldSeq, n Term) {
-	if x.termMode || x.noFacts > 0 {
+	if x.termMode || x.noFacts > 0 || x.unroll > 0 {
 		return
 	}
 	for _, sf := range x.P.Contracts.Specs {
